@@ -300,6 +300,11 @@ func singles(thorough bool) []wire.Spec {
 								s.Framing = wire.FChunkedTrailer
 								s.TENameMixed = p == wire.PHexUpper
 								add(s)
+								if p == wire.POne {
+									u := s
+									u.TrUnannounced = true
+									add(u)
+								}
 								if p == wire.POne || p == wire.PThree {
 									s.Framing = wire.FChunkedExpect
 									add(s)
@@ -369,6 +374,8 @@ func reduced() []wire.Spec {
 		with(S("GET", wire.FNone, 0), func(s *wire.Spec) { s.V10 = true }),
 		with(S("POST", wire.FChunkedTrailer, 1), func(s *wire.Spec) { s.Close = true }),
 		with(S("POST", wire.FCLExpect, 8193), func(s *wire.Spec) { s.Extra = wire.XFoldSP }),
+		with(S("POST", wire.FChunkedTrailer, 2), func(s *wire.Spec) { s.TrUnannounced = true }),
+		with(S("POST", wire.FChunkedTrailer, 4097), func(s *wire.Spec) { s.TrUnannounced = true; s.TrName = "X-Checksum" }),
 	)
 	for i := range rs {
 		rs[i].ID = fmt.Sprintf("r%d", i)
